@@ -123,4 +123,16 @@ def error_calls():
     for i, t in enumerate(texts):
         for api in ('run', 'semantic_analysis'):
             out.append({'id': 'err%d.%s' % (i, api), 'api': api, 'script': t, 'raw': raw})
+    # the message of an error names the statement being analysed: result names that look like format fields
+    hostile = ["'R{x}'", "'R{}'", "'{R'", "'R}'", "'R{0}'", "'R%s'", "'R{x!r:>{w}}'"]
+    k = 0
+    for t in texts:
+        if t.startswith('R <- ') and 'DS_1; R' not in t:
+            for h in hostile:
+                out.append({'id': 'errh%d' % k, 'api': ('run', 'semantic_analysis')[k % 2], 'script': t.replace('R <- ', h + ' <- ', 1), 'raw': raw})
+                k += 1
+    # the same with hostile dataset / component names in the structure
+    S2 = c22.struct("'DS{1}'", [('Id_1', 'Integer', 'Identifier', False), ("'Me{1}'", 'Number', 'Measure', True)])
+    for i, t in enumerate(["R <- 'DS{1}' + \"a\";", "R <- 'DS{1}'[keep Zz];", "R <- 'DS{1}'#'Me{9}';", "R <- 'DS{1}'[calc identifier 'Me{1}' := 1];", "R <- 'DS{1}' / 0;"]):
+        out.append({'id': 'errn%d' % i, 'api': 'run', 'script': t, 'raw': {'ds': {'datasets': [S2]}, 'dps': {"'DS{1}'": c22.df(['Id_1', "'Me{1}'"], [[1, 1.5]])}}})
     return out
